@@ -22,7 +22,7 @@ RULE = ('accepted texts over a fixed schema x every item boundary at every depth
         'values-only tree hash must equal the uninserted run and no diagnostic may appear (a third of the insertions carry a comment of their own and are parsed with annotation support on: then values and annotations together must equal the uninserted run); without the flag the same text must be rejected with a diagnostic. A nesting ladder of unknown '
         'sections 10^2..10^5 deep bounds the stack. non-trivial: the inserted item is a list, call or section; distinct = (text, insertion point, item)')
 
-NAMES = ['u', 'unk', 'x_new', 'zz9', 'future.opt', 'x', 'y', 'z',      # x/y/z are known only at other levels
+NAMES = ['u', 'unk', 'x_new', 'zz9', 'future.opt', 'x', 'y', 'z', 'w', 'zs',      # x/y/z are known only at other levels
          'unk|opt', 'u=1|v', 'zz|', 'new=t|k|l']                        # names that look like paths (into nothing that is declared)
 VALS = ['1', 'abc', '"q s"', "'sq'", '3.5', 'true', '"br{ace}"', '"}"', '"{"', '"a,b"', '")"', '${VERIF_C12_UNSET:-dd}', '""']
 
@@ -59,6 +59,9 @@ def unk_item(rng, depth=0, level_names=()):
 
 
 def gen_item(rng, decls, depth=0):
+    if depth == 0 and rng.random() < 0.08:
+        # a declared option addressed by path from the top level (its last component is a name the top level does not declare)
+        return ['leaf', rng.choice(['one|z = 4', 'one|inner|y = 6', 'one|inner|deep|w = 2', 'one|zs = "by path"'])]
     d = rng.choice(decls)
     if d.typ == 'sec':
         head = d.name + (' ' + rng.choice(['a', 'b', '"c d"', 'T']) if d.flags & F_TITLE else '')
